@@ -8,11 +8,13 @@ ROOT="$(pwd)"
 export CARGO_NET_OFFLINE=true
 export VERIF_ROOT="$ROOT"
 mkdir -p "$ROOT/target" "$ROOT/evidence"
+BIN="$(echo "${1:-}" | tr 'A-Z' 'a-z')"
+case "$BIN" in c[0-2][0-9]) ;; *) echo "usage: run.sh <C01..C20> <quick|thorough> [--replay FILE]"; exit 2 ;; esac
 (
   flock 9
-  ./setup.sh >/dev/null 2>"$ROOT/target/setup.err" || { cat "$ROOT/target/setup.err"; tail -5 "$ROOT/target/build-harness.log" "$ROOT/target/build-cli.log" 2>/dev/null; exit 2; }
-) 9>"$ROOT/.build.lock" || { echo "INCONCLUSIVE property=${1:-?} build failed"; exit 2; }
-"$ROOT/target/harness/release/vcheck" "$@"
+  ./setup.sh "$BIN" >"$ROOT/target/setup.out" 2>"$ROOT/target/setup.err" || { cat "$ROOT/target/setup.out" "$ROOT/target/setup.err"; exit 2; }
+) 9>"$ROOT/.build.lock" || { echo "INCONCLUSIVE property=${1:-?} build failed (exit 2: no verdict)"; exit 2; }
+"$ROOT/target/harness/release/$BIN" "$@"
 code=$?
 # thorough tier: additional coverage-guided fuzzing for the in-process targets (DESIGN §6)
 if [ $code -eq 0 ] && [ "${2:-}" = "thorough" ] && [ "${3:-}" != "--replay" ] && [ "${VERIF_NO_FUZZ:-0}" != "1" ]; then
